@@ -119,8 +119,22 @@ def gen_case(seed, tier):
     elif share < 0.4:
         ops.append(['new', -1])
         nstores = 2
-    known = {s: list(BUILTINS) for s in range(nstores)}
     reg_of = {0: 0, 1: (0 if share < 0.25 else 1)}
+    siblings = share < 0.25 and rng.random() < 0.5
+    if siblings:
+        # two stores created from the SAME parent (siblings sharing its registry), with one user name meaning different things
+        ops.append(['new', 0])
+        nstores = 3
+        reg_of[2] = 0
+    known = {s: list(BUILTINS) for s in range(nstores)}
+    if siblings:
+        sib_name = rng.choice(['len', 'ua', 'x1'])
+        sib_base = rng.choice(['metre', 'second', 'ampere'])
+        a, b = rng.sample(['0.001', '1000', '60', '2.5', '1e-6'], 2)
+        ops.append(['add', 1, sib_name, ('mul', ('ref', sib_base), ('num', a))])
+        ops.append(['add', 2, sib_name, ('mul', ('ref', sib_base), ('num', b))])
+        known[1].append(sib_name)
+        known[2].append(sib_name)
     nunits = rng.randint(3, 8)
     for _ in range(nunits):
         s = rng.randrange(nstores)
@@ -161,6 +175,8 @@ def gen_case(seed, tier):
     if len(terms) >= 2 and rng.random() < 0.5:
         terms.append(('pow', terms[0], '2'))
         terms.append(('pow', terms[1], '2'))
+    if siblings:
+        terms += [('get', 1, sib_name), ('get', 2, sib_name), ('get', 0, sib_base)]
     for _ in range(rng.randint(4, 7)):
         s0 = rng.randrange(nstores)
         pool = [a for a in avail if reg_of[a[0]] == reg_of[s0]]
